@@ -43,8 +43,14 @@ class St:
     def event(self, e):
         return St(self.env, self.heap, self.ev + (e,), self.pc, self.ctr)
     def assume(self, atom, truth):
+        # two-variant enums are recorded through their positive variant, so `is None` and `not is Some` are the same fact
+        if atom[0] == 'is' and atom[2] in COMPLEMENT:
+            atom, truth = ('is', atom[1], COMPLEMENT[atom[2]]), not truth
         return St(self.env, self.heap, self.ev, self.pc + ((atom, truth),), self.ctr)
     def known(self, atom):
+        if atom[0] == 'is' and atom[2] in COMPLEMENT:
+            r = self.known(('is', atom[1], COMPLEMENT[atom[2]]))
+            return None if r is None else (not r)
         for a, t in self.pc:
             if a == atom:
                 return t
@@ -81,6 +87,17 @@ def is_subplace(k, place):
         if k == place:
             return True
     return False
+
+COMPLEMENT = {'None': 'Some', 'Err': 'Ok'}
+
+def pc_variant(pc, term_pred, variant):
+    """True / False / None: whether the path condition says that a term satisfying term_pred is `variant`
+    (None/Err are read through their complements Some/Ok)."""
+    want, flip = (COMPLEMENT[variant], True) if variant in COMPLEMENT else (variant, False)
+    for a, t in pc:
+        if a[0] == 'is' and a[2] == want and term_pred(a[1]):
+            return (not t) if flip else t
+    return None
 
 class Out:
     __slots__ = ('kind', 'val', 'st', 'target')
@@ -409,9 +426,9 @@ class Interp:
 
     def split_maybe(self, pat, val, s_before, s_yes):
         """For a 'maybe' match: returns (state where it matched, state where it did not)."""
-        new = [a for a, t in s_yes.pc[len(s_before.pc):] if t]
+        new = list(s_yes.pc[len(s_before.pc):])
         if len(new) == 1:
-            return s_yes, s_before.assume(new[0], False)
+            return s_yes, s_before.assume(new[0][0], not new[0][1])
         if len(new) == 0:
             atom = self.top_atom(pat, val)
             kn = s_before.known(atom)
@@ -733,6 +750,11 @@ class Interp:
                     s2 = o.st.set(buf['bind'], ('encoded', o.val)).event(('call', cal, (('local', buf['bind']), o.val), e))
                     outs.append(Out('val', ('ctor', 'Ok', (UNIT,)), s2))
                 return outs
+        if cal in ('core::mem::take', 'core::mem::replace') and e['args']:
+            # mem::take(&mut x.f) / mem::replace(&mut x.f, None) on an Option field are Option::take by another name
+            r = self.mem_take(cal, e, st)
+            if r is not None:
+                return r
         if cal is None:
             # indirect call through a value
             res, abn = self.seq([f] + e['args'], st)
@@ -745,6 +767,41 @@ class Interp:
         for vals, s in res:
             outs.extend(self.call(cal, vals, e, s))
         return outs + abn
+
+    TAKE = 'core::option::Option::<T>::take'
+
+    def mem_take(self, cal, e, st):
+        place_e = hirq.peel_refs(e['args'][0])
+        ty = hirq.strip_refs(e['args'][0].get('ty') or '')
+        if place_e['k'] != 'Field':
+            return None
+        outs = []
+        for o in self.ev(place_e['e'], st):
+            if o.kind != 'val':
+                outs.append(o); continue
+            place = ('field', o.val, place_e['name'])
+            old = self.read_field(o.val, place_e['name'], o.st)
+            news = [(('ctor', 'None', ()) if ty.startswith('core::option::Option<') else ('default', ty), o.st)]
+            abn = []
+            if cal == 'core::mem::replace':
+                news = []
+                for o2 in self.ev(e['args'][1], o.st):
+                    if o2.kind == 'val':
+                        news.append((o2.val, o2.st))
+                    else:
+                        abn.append(o2)
+            outs.extend(abn)
+            for nv, s1 in news:
+                if nv == ('ctor', 'None', ()) and ty.startswith('core::option::Option<'):
+                    s2 = s1.store(place, nv).event(('call', self.TAKE, (old,), e))
+                    if old[0] == 'ctor' and old[1] in ('Some', 'None'):
+                        outs.append(Out('val', old, s2))
+                    else:
+                        outs.append(Out('val', ('call', self.TAKE, (old,), e.get('id')), s2))
+                else:
+                    s2 = s1.store(place, nv).event(('call', cal, (old, nv), e))
+                    outs.append(Out('val', old, s2))
+        return outs
 
     def ev_MethodCall(self, e, st):
         cal = callee_of(e) or ('<method %s>' % e.get('name'))
